@@ -791,7 +791,8 @@ func genEnv(r *rand.Rand, p profile, op *Opts, cur Cluster, probe RunResult, loc
 		}
 		switch k := r.Intn(10); {
 		case k < 2:
-			env.Cancel = CancelPt{Kind: CBeforeSync}
+			// (a dry-run uses the blind status watcher: the scripted one is never asked)
+			env.Cancel = CancelPt{Kind: CBeforeSync, ByWatcher: chance(r, 0.5) && op.Dry == DNone}
 		case k < 7 && len(targets) > 0:
 			env.Cancel = CancelPt{Kind: CDuringReq, I: targets[r.Intn(len(targets))]}
 		default:
@@ -1192,6 +1193,9 @@ func (c *collector) count(sc Scenario, res RunResult) {
 	switch sc.Env.Cancel.Kind {
 	case CBeforeSync:
 		s.Count("cancel:before-sync")
+		if sc.Env.Cancel.ByWatcher {
+			s.Count("cancel:before-sync-spelled-as-watcher-error")
+		}
 	case CDuringReq:
 		s.Count("cancel:during-request")
 		for _, it := range res.Out.Trace {
@@ -1439,6 +1443,12 @@ func (c *collector) corpus() {
 	// 8. cancellation while a delete request is served; watcher failure while waiting
 	c.fixedHistory(u, two, []fixedRun{{opts: Opts{Destroy: true, Prune: true, Policy: PMustMatch}, cancel: CancelPt{Kind: CDuringReq, I: 1}}})
 	c.fixedHistory(u, two, []fixedRun{{local: []LObj{{ID: 0, Ver: 1}}, opts: Opts{Prune: true, Policy: PMustMatch}, cancel: CancelPt{Kind: CDuringReq, I: 1}}})
+	// the run never gets its sync event: context cancelled before the run starts, or the status watcher
+	// reports a fatal error instead of synchronising and stops (mutation campaign: runner.go, error branch
+	// without a current task) — apply and destroy
+	c.fixedHistory(u, two, []fixedRun{{local: []LObj{{ID: 0, Ver: 1}}, opts: Opts{Prune: true, Policy: PMustMatch}, cancel: CancelPt{Kind: CBeforeSync}}})
+	c.fixedHistory(u, two, []fixedRun{{local: []LObj{{ID: 0, Ver: 1}}, opts: Opts{Prune: true, Policy: PMustMatch}, cancel: CancelPt{Kind: CBeforeSync, ByWatcher: true}}})
+	c.fixedHistory(u, two, []fixedRun{{opts: Opts{Destroy: true, Prune: true, Policy: PMustMatch}, cancel: CancelPt{Kind: CBeforeSync, ByWatcher: true}}})
 	c.fixedHistory(u, Cluster{NextUID: 100}, []fixedRun{{local: []LObj{{ID: 0, Ver: 1}, {ID: 1, Ver: 1, Deps: []int{0}}},
 		opts: Opts{Prune: true, Policy: PMustMatch}, watchErr: 1}})
 	c.fixedHistory(u, two, []fixedRun{{opts: Opts{Destroy: true, Prune: true, Policy: PMustMatch}, watchErr: 1}})
